@@ -198,7 +198,12 @@ class RemoteProxy(BaseProxy):
         except (asyncio.TimeoutError, asyncio.IncompleteReadError):
             pass
         await self._channel.close()
-        await self._reader_task
+        # close() cancels the channel's receiver task. If that happens
+        # before the receiver has seen the end of the stream, our reader
+        # task is never told that no more requests will come and would
+        # wait forever.
+        self._reader_task.cancel()
+        await asyncio.gather(self._reader_task, return_exceptions=True)
 
 
 def extract_version(meta: Meta) -> List[int]:
